@@ -35,6 +35,13 @@ def uniq_scope(ctx: Ctx) -> List[Ob]:
             for lp in inner:
                 used = {x.id for x in ast.walk(lp.iter) if isinstance(x, ast.Name)}
                 ok = bool(used & ov)
+                if not ok:
+                    # each outer node is compared with one fixed list (all of them go below the same parent): the id that is
+                    # looked for is the outer node's own
+                    cmp_names = {x.id for t in ast.walk(lp) if isinstance(t, ast.If) and any(isinstance(r, ast.Raise) for r in ast.walk(t))
+                                 for cmp_ in ast.walk(t.test) if isinstance(cmp_, ast.Compare) and any(isinstance(o_, (ast.Eq, ast.NotEq)) for o_ in cmp_.ops)
+                                 for x in ast.walk(cmp_) if isinstance(x, ast.Name)}
+                    ok = bool(cmp_names & ov)
                 # ... and it is the raw list of all siblings, not a (kind-aware) query
                 raw = isinstance(lp.iter, ast.Attribute) and lp.iter.attr in ("_children", "children")
                 if ok and not raw:
@@ -131,6 +138,11 @@ def rec_fwd(ctx: Ctx) -> List[Ob]:
         if w.parent is not None:
             continue
         params = [p for p in w.param_names() if p != w.self_name and p not in ("cls",)]
+        from ..known_funcs import KNOWN_PARAMS
+
+        ref = KNOWN_PARAMS.get(f"{w.module}:{w.qualname}")
+        if ref is not None:
+            params = [p for p in params if p in ref]  # a new option: what it does in the inner call is not stated anywhere
         if not params:
             continue
         for c in env.calls_in[w]:
@@ -322,4 +334,143 @@ def iter_noret(ctx: Ctx) -> List[Ob]:
         inside = {id(x) for x in ast.walk(tr[0])}
         early = [n for n in iter_own(g.node) if isinstance(n, ast.Return) and id(n) not in inside]
     obs.append(ctx.ob("ITER-NORET", ["C06"], g, "visit() has no return before the traversal starts", None, not early, "" if not early else "early exit skips the start node"))
+    return obs
+
+
+# -------------------------------------------------------------- CACHE-INVAL
+_CACHE_CONTROL = '''
+class ZzCacheNode:
+    def __init__(self):
+        self._zz_up = None
+        self._zz_memo = None
+
+    def zz_depth(self):
+        if self._zz_memo is None:
+            d = 0
+            p = self._zz_up
+            while p is not None:
+                d += 1
+                p = p._zz_up
+            self._zz_memo = d
+        return self._zz_memo
+
+    def zz_move(self, other):
+        self._zz_up = other
+'''
+
+
+def _attr_receiver(node: ast.AST, field: str) -> Optional[str]:
+    """Text of X in the first `X.<field>` inside node (the object whose field a statement writes)."""
+    for x in ast.walk(node):
+        if isinstance(x, ast.Attribute) and x.attr == field:
+            return norm(x.value)
+    return None
+
+
+def _cache_findings(ctx: Ctx, new_attr) -> List[tuple]:
+    """[(memoising function, attribute, mutator, field, receiver, write node)]: a function g keeps a value it computed in
+    a *new* attribute A of its receiver and reads it back (memoisation); some other function writes a field F that g
+    (or what g calls) reads, on a receiver r, without also writing r.A."""
+    m = ctx.model
+    env = ctx.env
+    fx = ctx.fx
+    MUT = {"append", "insert", "pop", "remove", "sort", "clear", "extend", "reverse", "update", "setdefault", "popitem", "add", "discard"}
+
+    def writes_of(F: Func) -> List[Tuple[str, str, ast.AST]]:
+        """(field, receiver text, node) for the state writes in F's own body."""
+        res = []
+        for x in ast.walk(F.node):
+            if isinstance(x, ast.Attribute) and isinstance(x.ctx, (ast.Store, ast.Del)):
+                res.append((x.attr, norm(x.value), x))
+            elif isinstance(x, ast.Subscript) and isinstance(x.ctx, (ast.Store, ast.Del)) and isinstance(x.value, ast.Attribute):
+                res.append((x.value.attr, norm(x.value.value), x))
+            elif isinstance(x, ast.Call) and isinstance(x.func, ast.Attribute) and x.func.attr in MUT and isinstance(x.func.value, ast.Attribute):
+                res.append((x.func.value.attr, norm(x.func.value.value), x))
+        return res
+
+    all_writes = {F: writes_of(F) for F in m.all_funcs()}
+    written_fields = {w[0] for ws in all_writes.values() for w in ws}
+    out: List[tuple] = []
+    memo = []
+    for g in m.all_funcs():
+        if g.name == "__init__" or g.parent is not None:
+            continue
+        stores: Dict[str, List[ast.AST]] = {}
+        loads: Dict[str, List[ast.AST]] = {}
+        for x in ast.walk(g.node):
+            if isinstance(x, ast.Attribute) and new_attr(x.attr):
+                (stores if isinstance(x.ctx, ast.Store) else loads).setdefault(x.attr, []).append(x)
+        for a, ss in stores.items():
+            # a stored value that is not a constant (resetting to None is invalidation, not memoisation)
+            vals = []
+            for t in ss:
+                st = m.parent_of(t)
+                while st is not None and not isinstance(st, (ast.Assign, ast.AnnAssign, ast.AugAssign)):
+                    st = m.parent_of(st)
+                if st is not None and getattr(st, "value", None) is not None and not isinstance(st.value, ast.Constant):
+                    vals.append((t, st))
+            if vals and a in loads and {norm(t.value) for t, _ in vals} & {norm(l.value) for l in loads[a]}:
+                memo.append((g, a))
+    for g, a in memo:
+        # fields g's computation reads (transitively, bounded)
+        reads: Set[str] = set()
+        seen: Set[Func] = set()
+        todo = [(g, 0)]
+        while todo:
+            h, d = todo.pop()
+            if h in seen or d > 4:
+                continue
+            seen.add(h)
+            for x in ast.walk(h.node):
+                if isinstance(x, ast.Attribute) and isinstance(x.ctx, ast.Load) and x.attr in written_fields and x.attr != a:
+                    reads.add(x.attr)
+            for c in env.calls_in.get(h, []):
+                for k, _r in env.callees(h, c):
+                    todo.append((k, d + 1))
+        for M in m.all_funcs():
+            if M is g or M.name == "__init__":
+                continue
+            resets = set()
+            for x in ast.walk(M.node):
+                if isinstance(x, ast.Attribute) and x.attr == a and isinstance(x.ctx, (ast.Store, ast.Del)):
+                    resets.add(norm(x.value))
+            # ... or through a callee that resets its own receiver's A
+            for c in env.calls_in.get(M, []):
+                if isinstance(c.func, ast.Attribute):
+                    for k, _r in env.callees(M, c):
+                        if any(isinstance(x, ast.Attribute) and x.attr == a and isinstance(x.ctx, (ast.Store, ast.Del)) and isinstance(x.value, ast.Name) and x.value.id == k.self_name
+                               for x in ast.walk(k.node)):
+                            resets.add(norm(c.func.value))
+            done = set()
+            for fld, r, node in all_writes[M]:
+                if fld not in reads:
+                    continue
+                if r in resets or (M.qualname, fld, r) in done:
+                    continue
+                done.add((M.qualname, fld, r))
+                st = node
+                while st is not None and not isinstance(st, ast.stmt):
+                    st = m.parent_of(st)
+                out.append((g, a, M, fld, r, st if st is not None else node))
+    return out
+
+
+@rule("CACHE-INVAL", ["C01", "C02", "C03", "C04", "C05", "C06", "C07", "C08", "C09", "C10", "C11", "C12", "C14", "C15", "C16", "C17", "C19", "C20"], floor=1, section="3.6+")
+def cache_inval(ctx: Ctx) -> List[Ob]:
+    """new state that memoises a computed value (an attribute the reference tree does not have, filled and read back by the same function) is reset wherever a field that the computation reads is written, on the same object; a memoised answer that survives a mutation is a stale answer"""
+    from ..known_funcs import KNOWN_ATTRS
+    from .own import family_props
+
+    obs: List[Ob] = []
+    for g, a, M, fld, r, node in _cache_findings(ctx, lambda n: n not in KNOWN_ATTRS and not n.startswith("__") and not n.startswith("_zz") and not n.startswith("zz")):
+        props = family_props(g) or (["C15"] if (g.top.cls or "").startswith("Typed") else ["C10"] if g.module == "node" else ["C02"])
+        obs.append(ctx.ob("CACHE-INVAL", props, g, f"{g.qualname} memoises in `{a}`: reset where `{fld}` is written in {M.qualname}", node, False,
+                          f"{g.qualname} keeps its result in the new attribute `{a}` and computes it from `{fld}`; {M.qualname} writes `{r}.{fld}` "
+                          f"(`{norm(node)[:80]}`) without resetting `{r}.{a}`: the memoised value is stale afterwards"))
+    cc = ctx.with_extra({"zz_cache_control": _CACHE_CONTROL})
+    hit = [x for x in _cache_findings(cc, lambda n: n.startswith("_zz_memo")) if x[0].name == "zz_depth" and x[2].name == "zz_move"]
+    if len(hit) != 1:
+        raise AnalysisError("CACHE-INVAL positive control not detected")
+    obs.append(ctx.ob("CACHE-INVAL", ["C10"], "control:zz_cache_control", "synthetic memoised depth without invalidation is detected", None, True,
+                      f"control reported `{hit[0][1]}` against `{hit[0][3]}` written in {hit[0][2].qualname}"))
     return obs
